@@ -277,6 +277,9 @@ structure Call where
   key : Key
   rev : Option Nat
   pl : Payload
+  /-- `some x`: the write is an allocation made with the affinity check enabled
+  (StrictAffinity) by host `x`. -/
+  own : Option Nat := none
 deriving Repr
 
 inductive Ev where
@@ -375,7 +378,7 @@ def applyWrite (s : St) (c : Call) : Option St :=
     | none => none
     | some (_, m) =>
       let cr : Cred := { t := c.t, h := h, b := b, n := n }
-      if n ≤ cnt m b && s.creds.contains cr && !(zeroMap (m.set b (cnt m b - n))) then
+      if n ≤ cnt m b && b < m.length && s.creds.contains cr && !(zeroMap (m.set b (cnt m b - n))) then
         some { s with rev := r', hdl := upd s.hdl h (some (r', m.set b (cnt m b - n))), creds := s.creds.erase cr }
       else none
   | .hdl h, .delete, .hDec b n =>
@@ -383,7 +386,7 @@ def applyWrite (s : St) (c : Call) : Option St :=
     | none => none
     | some (_, m) =>
       let cr : Cred := { t := c.t, h := h, b := b, n := n }
-      if n ≤ cnt m b && s.creds.contains cr && zeroMap (m.set b (cnt m b - n)) then
+      if n ≤ cnt m b && b < m.length && s.creds.contains cr && zeroMap (m.set b (cnt m b - n)) then
         some { s with rev := r', hdl := upd s.hdl h none, creds := s.creds.erase cr }
       else none
   -- affinities (plain compare-and-swap cells here; C22 adds the claim protocol) --
@@ -399,6 +402,17 @@ def Verb.isWrite : Verb → Bool
   | .create | .update | .delete => true
   | _ => false
 
+/-- `autoAssign` / `assign` with `affinityCheck`: the block the client read (and
+compare-and-swaps against) must record the allocating host as its affinity —
+whatever the state of any BlockAffinity object. -/
+def ownOk (s : St) (c : Call) : Bool :=
+  match c.own, c.key with
+  | some x, .blk b =>
+    match s.blk b with
+    | some (_, v) => v.aff == some x
+    | none => false
+  | _, _ => true
+
 /-- The transition function of the model. -/
 def step (s : St) : Ev → Option St
   | .tick => some s
@@ -406,7 +420,7 @@ def step (s : St) : Ev → Option St
   | .endOp t addrs => if addrs.all (fun a => (s.got t).contains a) then some s else none
   | .call c =>
     match casOutcome (s.curRev c.key) c.verb c.rev c.fault with
-    | .ok => if c.verb.isWrite then applyWrite s c else some s
+    | .ok => if c.verb.isWrite then (if ownOk s c then applyWrite s c else none) else some s
     | _ => some s
 
 def run (s : St) : List Ev → Option St
